@@ -97,6 +97,8 @@ inductive Clause
   /-- bytes_bound -/
   | bytesBound
   | badStat
+  /-- the store's own consistency check (`validate`, compiled out): its byte count is the bytes of its data -/
+  | accounting
   /-- accounting / exact replay of private streams under concurrent use -/
   | concurrent
   /-- an exported method panicked -/
@@ -170,11 +172,15 @@ def iterClause (st : MState) (k : Key) (i : Int) (cm : CtxMode) (stop : Option N
       | none => some .ctxErrLive
     | _ => some .afterWrong
 
-/-- The byte bound on a `stat` probe: the bytes counted from the retained data exceed the configured
-maximum (the reported one under the default) by no more than the most recent item. -/
+/-- A `stat` probe.  `MemoryEventStore.validate` (mcp/event.go; compiled out by `validateMemoryEventStore =
+false`): the store's byte count `nBytes` — which alone drives eviction — equals the bytes counted from the
+data it retains.  The byte bound: the bytes counted from the retained data exceed the configured maximum
+(the reported one under the default) by no more than the most recent item. -/
 def statClause (st : MState) (obs : Obs) : Option Clause :=
   match obs with
-  | .stat _ m r => if r ≤ st.maxCfg.getD m + st.lastApp then none else some .bytesBound
+  | .stat n m r =>
+    if n ≠ r then some .accounting
+    else if r ≤ st.maxCfg.getD m + st.lastApp then none else some .bytesBound
   | _ => some .badStat
 
 /-- The bookkeeping after an API call. -/
@@ -278,7 +284,7 @@ def recStep (s : Store String) : Rec → Option (Store String × Obs)
     | some (s', nested) =>
       let d := deliver .ignore (afterIter s k i) stop none
       some (s', .iter d.1 d.2 nested)
-  | .stat => some (s, .stat s.nBytes s.maxBytes s.nBytes)
+  | .stat => some (s, .stat s.nBytes s.maxBytes (retainedBytes psz s.store))
   | .concurrent => some (s, .consistent)
 
 /-- The model on a record sequence: the observations, oldest first (`none`: a model-level panic). -/
@@ -291,5 +297,35 @@ def recRun : Store String → List Rec → Option (Store String × List Obs)
       match recRun s' rs with
       | none => none
       | some (s'', os) => some (s'', o :: os)
+
+/-! ### The window between `After`'s return and the first step of the iteration
+
+`After` itself does nothing (structural fact `eventstore.after_delivery`: its body is the `copyData` closure
+and `return func(yield …)`); the snapshot is taken by the iterator's first step.  A consumer that obtains the
+iterator and ranges over it later leaves a WINDOW in which whole API calls (its own or another goroutine's)
+take effect.  An `iter` line of the harness lists the calls it issued in that window (`0:<op>`); they are
+records of their own, made before the iteration starts, each answered without an error (the harness reports a
+panic of any of them as the observation of the line). -/
+
+/-- The records of one `iter` line with the window calls `pre`. -/
+def wireRecs (pre : List (Op String)) (r : Rec) : List Rec := pre.map Rec.op ++ [r]
+
+/-- … with the implementation's observations. -/
+def expand (pre : List (Op String)) (r : Rec) (obs : Obs) : List (Rec × Obs) :=
+  pre.map (fun o => (Rec.op o, Obs.ok)) ++ [(r, obs)]
+
+/-- The monitor over the records of one line: the new bookkeeping, the first clause raised. -/
+def monRun : MState → List (Rec × Obs) → MState × Option Clause
+  | st, [] => (st, none)
+  | st, (r, obs) :: tr =>
+    match (monStep st r obs).2 with
+    | some cl => ((monRun (monStep st r obs).1 tr).1, some cl)
+    | none => monRun (monStep st r obs).1 tr
+
+/-- A window call: no answer of its own (`After` and `MaxBytes` are not issued in the window). -/
+def isWindowOp : Op String → Bool
+  | .after _ _ => false
+  | .maxBytes => false
+  | _ => true
 
 end EventStore
